@@ -1,7 +1,10 @@
 #!/venv/bin/python
 """C10 at SCALE, with unusual identifiers, and through every default / optional parameter (fourth-round stream).
 
-    PYTHONPATH=/verif /venv/bin/python /verif/harness/agents/c10_scale.py [--seed 0] [--n 150] [--thorough]
+    PYTHONPATH=/verif /venv/bin/python /verif/harness/agents/c10_scale.py [--seed 0] [--n 66] [--thorough]
+
+`n` is the number of generated programs in both tiers (recommended: 66 quick, 200 thorough; the thorough tier also lifts
+the quick tier's size limits and runs more histories / flag combinations per program).
 
 Oracles only.  Every program is generated from a small structured SPEC of this script; the text is printed from the
 spec, and the expected meaning is computed from the spec by an independent reference (`ref_meaning`: let = its value
@@ -20,7 +23,8 @@ What is scaled (ONE dimension per case crosses 8 / 16 / 32 / 64 / 128 / 256 / 10
   long_names    identifiers N characters long
 Names are drawn per case from a STYLE — plain, dotted (`cal.x`), pairs that differ by a dotted prefix / suffix, dunder,
 prefixes / extensions of keywords and of prepare_all / measure_all, look-alikes of the library's internal markers
-(`__in_context__`, `p0`, `array_item`, `gate`, `circuit` …), numbered (`a2` / `a10`), case variants — and are assigned
+(`__in_context__`, `p0`, `array_item`, `gate`, `circuit` …), the formal parameter names of the native gates (`p0` … `p13`,
+`q k c t a b`), numbered (`a2` / `a10`), case variants — and are assigned
 in RANDOM order, so the order of declaration is never the alphabetical one (an alias is usually declared after an alias
 that sorts behind it); header statements are interleaved as far as define-before-use allows.
 DEFAULTS: every pass is called through all its call shapes (fill_in_let(c) / (c, None) / (c, {}) / positional /
@@ -38,8 +42,11 @@ oracle
   flags_equal_passes      parse with flags / override / return_usepulses / string|file vs the passes applied by hand to
                           the plain parse: same error class, or `==` both ways, equal structure, the reference meaning
   input_not_modified      the plain parse has the same structure and meaning after all histories as before
-  only_jaqal_errors       a pass / the generator / the parser raise nothing but JaqalError (a JaqalError from a pass =
-                          "not applicable": the order is dropped and counted in `distribution`)
+  applicable              a pass refuses (JaqalError) a plain parse or a pass result of these programs — valid under the
+                          overrides by construction — only where the check's assumptions say so: fill_in_map while the
+                          macro table still holds a body that indexes a parameter / by a parameter (refusals under an
+                          override of a let that occurs in an index / bound / size are counted, not judged)
+  only_jaqal_errors       a pass / the generator / the parser raise nothing but JaqalError
 Side condition for fill_in_map (bakes DECLARED let values into qubit references): an order in which fill_in_map precedes
 the first fill_in_let only overrides lets that occur in no index, slice or size.
 """
@@ -58,11 +65,13 @@ KEYWORDS = {"register", "map", "let", "macro", "loop", "import", "usepulses", "f
 BOUNDING = {"prepare_all", "measure_all"}
 FAMILIES = ["macro_chain", "macro_wide", "lets_wide", "alias_chain", "alias_wide", "nest", "stmts", "calls", "params",
             "counts", "long_names"]
-STYLES = ["plain", "dotted", "dotpairs", "dunder", "kwprefix", "internal", "numbered", "case"]
+STYLES = ["plain", "dotted", "dotpairs", "dunder", "kwprefix", "internal", "numbered", "case", "formal"]
 # sizes around the thresholds (and the sizes the missed seeds used)
 SIZES = [7, 8, 9, 11, 12, 14, 15, 16, 17, 20, 24, 25, 26, 31, 32, 33, 34, 40, 48, 49, 63, 64, 65, 100, 127, 128, 129, 200,
          255, 256, 257, 1000]
 CAP = {"macro_chain": 110, "alias_chain": 130, "nest": 100, "params": 257, "long_names": 1000}
+# quick tier: most of the cases of these families stay below (the rest, and the thorough tier, go to CAP)
+CAP_QUICK = {"alias_chain": 66, "macro_chain": 101, "nest": 66, "macro_wide": 257, "alias_wide": 257, "params": 129}
 # native gates: name -> slots (q qubit, i integer, f number)
 GATE_NAMES = ["X", "Y", "Z", "S", "SX", "N", "P", "PF", "CX", "CZ", "SWAP", "ISWAP", "HH", "NS", "CCX", "ROT3"]   # harness.gates
 MENU_GATES = [("X", "q"), ("Y", "q"), ("SX", "q"), ("CX", "qq"), ("CZ", "qq"), ("P", "qi"), ("PF", "fq"), ("CCX", "qqq")]
@@ -99,7 +108,8 @@ _KW_POOL = ["le", "lets", "let_", "letx", "loo", "loops", "loopy", "loop_", "ma"
 _INTERNAL_POOL = ["p0", "p1", "p2", "p3", "p10", "p11", "array_item", "gate", "circuit", "sequential_block",
                   "parallel_block", "subcircuit_block", "unscheduled_block", "usepulses_", "all", "None", "True",
                   "False", "self", "cls", "lambda", "def", "class", "body", "statements", "iterations", "parameters",
-                  "name", "alias_from", "alias_index", "native_gates", "__in_context__", "inf", "nan", "e5", "E", "j",
+                  "name", "alias_from", "alias_index", "native_gates", "__in_context__", "__in_context__parallel", "__in_context__subcircuit",
+                  "__in_context__sequential", "inf", "nan", "e5", "E", "j",
                   "I", "case", "block", "sexpr", "context", "gate_def", "size", "value", "kind", "fundamental"]
 _DUNDER_POOL = ["__macro__", "__c10", "__r0", "__x__", "_", "__", "___", "_0", "__init__", "__in_context__",
                 "__name__", "_p0", "__class__", "__dict__", "_1_", "__0", "__let__", "__map", "__reg__", "_._", "__.__"]
@@ -153,6 +163,9 @@ class Names:
             return r.choice(_KW_POOL) if r.random() < 0.8 else r.choice(sorted(KEYWORDS)) + r.choice(["s", "_", ".x", "0", "X"])
         if st == "internal":
             return r.choice(_INTERNAL_POOL)
+        if st == "formal":
+            # the names of the formal parameters of the native gates: p0, p1, … of an undeclared gate, q k c t a b of harness.gates
+            return r.choice(["p%d" % i for i in range(14)] + ["q", "k", "c", "t", "a", "b"] * 2)
         if st == "numbered":
             self.count += 1
             return self.stem + str(self.order[self.count % len(self.order)])
@@ -332,6 +345,22 @@ def norm_tree(x):
     return [x[0], flatten(x[0], [norm_tree(y) for y in x[1]])]
 
 
+def _declared_lengths(spec):
+    """the size of every register and array alias under the declared let values"""
+    lets, out = {}, {}
+    for h in spec["header"]:
+        if h[0] == "let":
+            lets[h[1]] = _letval(h[2])
+        elif h[0] == "reg":
+            out[h[1]] = list(range(lets[h[2]] if isinstance(h[2], str) else h[2]))
+        elif h[3] is None:
+            out[h[1]] = out[h[2]]
+        elif h[3][0] == "s":
+            b = [None if x is None else (lets[x] if isinstance(x, str) else x) for x in h[3][1:]]
+            out[h[1]] = _slice(out[h[2]], b[0], b[1], b[2], strict=False)
+    return {k: len(v) for k, v in out.items()}
+
+
 PREPARE = ["g", "prepare_all", []]
 MEASURE = ["g", "measure_all", []]
 
@@ -340,6 +369,12 @@ def ref_meaning(spec, ov, subs):
     """the meaning of the program of `spec` when the lets named in `ov` have the given values and (subs) every
     subcircuit block is spelled out; RefError when the program is not valid under these values"""
     lets, regs, macros = {}, {}, {}
+    # an omitted slice stop is fixed when the text is parsed: it is the DECLARED size of the source (and follows an
+    # override only when the source is the register itself, sized by a let)
+    declared = {}
+    let_sized = {h[1]: h[2] for h in spec["header"] if h[0] == "reg" and isinstance(h[2], str)}
+    if ov and any(h[0] == "map" and h[3] is not None and h[3][0] == "s" and h[3][2] is None for h in spec["header"]):
+        declared = _declared_lengths(spec)
     for h in spec["header"]:
         if h[0] == "let":
             v = ov.get(h[1], h[2])
@@ -365,7 +400,10 @@ def ref_meaning(spec, ov, subs):
                     raise RefError("index out of range")
                 regs[h[1]] = ("q", base[k])
             else:
-                regs[h[1]] = _slice(base, val(sel[1]), val(sel[2]), val(sel[3]))
+                stop = val(sel[2])
+                if stop is None and h[2] in declared and h[2] not in let_sized:
+                    stop = declared[h[2]]
+                regs[h[1]] = _slice(base, val(sel[1]), stop, val(sel[3]))
 
     def lookup(name, env):
         if name in env:
@@ -425,9 +463,22 @@ def ref_meaning(spec, ov, subs):
             return ["sub", str(count(b[1], env)), items]
         return [b[0], [stmt(x, env) for x in b[1]]]
 
+    def validate(b, params):
+        """the global qubit references in the body of a macro must be in range even if the macro is never called"""
+        for x in b[-1]:
+            if x[0] == "g":
+                for a in x[2]:
+                    if a[0] == "q" and a[1] not in params and (not isinstance(a[2], str) or a[2] not in params):
+                        arg(a, {})
+            elif x[0] == "loop":
+                validate(x[2], params)
+            else:
+                validate(x, params)
+
     top = []
     for s in spec["body"]:
         if s[0] == "macro":
+            validate(s[3], set(s[2]))
             macros[s[1]] = (s[2], s[3])
         else:
             top.append(stmt(s, {}))
@@ -1005,8 +1056,19 @@ def fam_nest(g, n):
     r = g.rng
     g.background()
     m = g.small_macro()
+    if r.random() < 0.3:
+        # loops only, so that a subcircuit block (legal in no parallel block) can stand at the very bottom
+        cur = ["sub", r.choice([None, 3, g.count_value(2)]), [g.native(), g.call(m)]]
+        for lv in range(n - 1):
+            items = [cur]
+            if r.random() < 0.5:
+                items.insert(r.randrange(2), g.call(m) if r.random() < 0.2 else g.native())
+            cur = ["loop", g.count_value(r.choice([1, 2, 3])), ["seq", items]]
+        g.body.append(cur)
+        g.body.append(g.stmt())
+        return
     inner_kind = r.choice(["seq", "par"])
-    cur = [inner_kind, [g.native(), g.native()]]
+    cur = [inner_kind, [g.native(), g.call(m), g.native()]]
     subs_at = r.randrange(n) if r.random() < 0.5 else None
     levels = 1
     in_par_above = False
@@ -1089,8 +1151,10 @@ def fam_params(g, n):
     reg = g.background(nreg=r.randrange(4, 9))
     size = len(g.arrays[reg])
     kinds = []
+    # parameters used as a register or as an index make fill_in_map inapplicable before expand_macros: only sometimes
+    menu = ["q", "q", "q", "i", "f", "j%d" % size, "r%d" % size] if r.random() < 0.3 else ["q", "q", "i", "f"]
     for i in range(n):
-        kinds.append(r.choice(["q", "q", "q", "i", "f", "j%d" % size, "r%d" % size]))
+        kinds.append(r.choice(menu))
     if "q" not in kinds:
         kinds[0] = "q"
     ps = g.fresh_params(kinds)
@@ -1144,13 +1208,28 @@ def fam_counts(g, n):
 
 def fam_long_names(g, n):
     r = g.rng
-    g.background()
-    m1 = g.small_macro()
-    m2 = g.small_macro()
-    for _ in range(4):
+    reg = g.background(nreg=r.randrange(6, 10))
+    size = len(g.arrays[reg])
+    # several names in every role, so that names confused with one another (they share a very long prefix or suffix)
+    # change the meaning: aliases with different offsets, lets with different values, macros with different bodies
+    als = [g.map_slice(reg, k, size, None, omit=False) for k in r.sample(range(0, size - 1), 3)]
+    als.append(g.map_slice(als[0], 1, len(g.arrays[als[0]]), None) if len(g.arrays[als[0]]) > 2 else g.map_whole(als[1]))
+    qs = [g.map_qubit(reg, k) for k in r.sample(range(size), 2)]
+    ints = [g.let(v, True) for v in r.sample(range(0, 4), 3)]
+    nums = [g.let(v) for v in r.sample([0.5, 1.5, -2.25, 7, 100, 3.0], 3)]
+    ms = [g.small_macro() for _ in range(3)]
+    for a in als:
+        g.body.append(["g", "X", [["q", a, 0]]])
+        g.body.append(["g", "CX", [["q", a, len(g.arrays[a]) - 1], ["n", r.choice(qs)]]])
+    for l in ints:
+        g.body.append(["g", "P", [g.q_arg({}), ["n", l]]])
+    for l in nums:
+        g.body.append(["g", "PF", [["n", l], g.q_arg({})]])
+    for m in ms:
+        g.body.append(g.call(m))
+    for _ in range(3):
         g.body.append(g.stmt(allow_sub=True))
-    g.body.append(g.call(m1))
-    g.body.append(["loop", 2, ["seq", [g.call(m2)]]])
+    g.body.append(["loop", g.count_value(2), ["seq", [g.call(r.choice(ms))]]])
 
 
 FAM = {"macro_chain": fam_macro_chain, "macro_wide": fam_macro_wide, "lets_wide": fam_lets_wide,
@@ -1172,7 +1251,8 @@ def build_spec(gp):
         if firstm is not None:
             g.body.insert(firstm, g.native())
     lets = {h[1]: h[2] for h in g.header if h[0] == "let"}
-    return g.spec(), {"idx": sorted(g.idx_lets), "count": sorted(g.count_lets), "lets": lets}
+    regparam = any(k[0] in "jr" for kinds, _bk in g.macros.values() for k in kinds)
+    return g.spec(), {"idx": sorted(g.idx_lets), "count": sorted(g.count_lets), "lets": lets, "regparam": regparam}
 
 
 # ------------------------------------------------------------------------------------------------ the real code
@@ -1388,7 +1468,7 @@ def gen_flag_cases(rng, free, idx, thorough):
 # ------------------------------------------------------------------------------------------------ one case
 
 ORACLES = ("meaning_after_history", "idempotent", "legal_after_pass", "flags_equal_passes", "input_not_modified",
-           "only_jaqal_errors")
+           "applicable", "only_jaqal_errors")
 
 
 class Acc:
@@ -1407,19 +1487,23 @@ class Acc:
                 self.oracle[name]["more_failures"] = self.oracle[name].get("more_failures", 0) + 1
 
 
+def _short(path):
+    return path if len(path) <= 60 else "(depth %d) …%s" % (path.count("/"), path[-50:])
+
+
 def first_diff(a, b, path=""):
     """where two meaning trees differ (for the detail of a failure)"""
     if type(a) != type(b):
-        return f"{path}: {a!r} vs {b!r}"[:400]
+        return f"{_short(path)}: {a!r} vs {b!r}"[:400]
     if isinstance(a, list):
         for i, (x, y) in enumerate(zip(a, b)):
             d = first_diff(x, y, f"{path}/{i}")
             if d:
                 return d
         if len(a) != len(b):
-            return f"{path}: {len(a)} items vs {len(b)} items; first extra: {(a[len(b):] or b[len(a):])[0]!r}"[:400]
+            return f"{_short(path)}: {len(a)} items vs {len(b)} items; first extra: {(a[len(b):] or b[len(a):])[0]!r}"[:400]
         return None
-    return None if a == b else f"{path}: {a!r} vs {b!r}"[:400]
+    return None if a == b else f"{_short(path)}: {a!r} vs {b!r}"[:400]
 
 
 def safe_meaning(c):
@@ -1438,15 +1522,41 @@ def make_case(gp, text, oracle, **what):
     return {"gen": gp, "oracle": oracle, "what": what, "text": t}
 
 
-def process(acc, gp, thorough, only=None):
-    """all the checks of one generated program"""
+def weight(gp):
+    """a rough cost of the checks of one program relative to a small one (alias chains cost cubic time in the library,
+    every level of a macro chain or a nest is rebuilt by every pass)"""
+    n, f = gp["size"], gp["family"]
+    if f == "alias_chain":
+        return (n / 45.0) ** 3
+    if f in ("macro_chain", "nest"):
+        return n / 40.0
+    if f == "alias_wide":
+        return n / 150.0
+    return n / 300.0
+
+
+def process(acc, gp, thorough):
+    """all the checks of one generated program.  A HEAVY program (weight > 1) gets the meaning check after every prefix
+    but the idempotence and legality checks only after the first fill_in_let and at the end of each history, and fewer
+    histories / flagged parses (quick: 2 / 1, thorough: 3 / 3; weight > 8: 1 / 1 and 2 / 1) than a light one (3 / 3, thorough 4 / 8)"""
     spec, info = build_spec(gp)
+    w = weight(gp)
+    heavy = w > 1
     text = spec_text(spec)
     mode = gp["mode"]
     rng = random.Random("c10_scale:hist:%s:%s:%s" % (gp["family"], gp["size"], gp["gseed"]))
     free, idx = gen_ov(rng, info, spec)
     histories = gen_histories(rng, free, idx, thorough)
     flag_cases = gen_flag_cases(rng, free, idx, thorough)
+    if heavy:
+        if w > 8:
+            histories = histories[2:3] if not thorough else histories[:1] + histories[2:3]
+            flag_cases = flag_cases[:1]
+        else:
+            histories = histories[:1] + histories[2:3] if not thorough else histories[:3]
+            flag_cases = flag_cases[:1] if not thorough else flag_cases[:3]
+    if heavy:
+        acc.dist["heavy programs (reduced checks)"] += 1
     refs = {}
 
     def ref(ov, subs):
@@ -1487,7 +1597,7 @@ def process(acc, gp, thorough, only=None):
         acc.dist["history:" + hist_label(h)] += 1
         acc.dist["history length %d" % len(h)] += 1
         cur = c
-        ov_in_force, subs, let_seen = [], False, False
+        ov_in_force, subs, let_seen, table_kept = [], False, False, True
         for i, p in enumerate(h):
             prefix = h[: i + 1]
             rr = _guard(lambda: apply_pass(p, cur, mode))
@@ -1500,7 +1610,22 @@ def process(acc, gp, thorough, only=None):
                 acc.check("only_jaqal_errors", rr[1] == "JaqalError", make_case(gp, text, "only_jaqal_errors", prefix=prefix),
                           f"{p[0]} raises {rr[1]}: {rr[2]}")
                 acc.dist["not applicable:" + p[0]] += 1
+                if rr[1] == "JaqalError":
+                    # fill_in_map is not applicable while the macro table holds a body that indexes a parameter or by a
+                    # parameter; nothing else in these programs (valid under the overrides by construction) can be refused
+                    expected = p[0] == "map" and info["regparam"] and table_kept
+                    idx_names = {o[0] for o in idx}
+                    if any(o[0] in idx_names for o in (p[1] if p[0] == "let" else ov_in_force)):
+                        # whether the program stays valid under overrides of lets in index positions is judged by the
+                        # reference, which may be more lenient than the library: not held against the pass
+                        acc.dist["refused under overrides of index lets (not judged)"] += 1
+                        break
+                    acc.check("applicable", expected, make_case(gp, text, "applicable", prefix=prefix),
+                              f"{p[0]} refuses the result of {hist_label(h[:i]) or 'the plain parse'}: {rr[2]}")
                 break
+            acc.oracle["applicable"]["cases"] += 1
+            if p[0] == "macros" and not p[1]:
+                table_kept = False
             acc.oracle["only_jaqal_errors"]["cases"] += 1
             nxt = rr[1]
             if p[0] == "let" and not let_seen:
@@ -1516,19 +1641,22 @@ def process(acc, gp, thorough, only=None):
                 acc.check("meaning_after_history", ok, make_case(gp, text, "meaning_after_history", prefix=prefix),
                           "" if ok else (f"the result of {hist_label(prefix)} has no meaning: {got[1]}" if got[0] != "ok" else
                                          f"the result of {hist_label(prefix)} differs from the reference at {first_diff(got[1], want[1])} (result vs reference)"))
+            first_let = p[0] == "let" and not any(q[0] == "let" for q in h[:i])
+            full = (not heavy) or i == len(h) - 1 or first_let
             # idempotent
-            if p[0] != "text":
+            if p[0] != "text" and full:
                 r2 = _guard(lambda: apply_pass(p, nxt, mode))
                 case = make_case(gp, text, "idempotent", prefix=prefix)
                 if r2[0] != "ok":
                     acc.check("idempotent", False, case, f"the second application of {p[0]} raises {r2[1]}: {r2[2]}")
                 else:
                     again = r2[1]
-                    eq = bool(again == nxt) and bool(nxt == again)
+                    # (`==` of long alias chains costs as much as the pass: one direction for a heavy program)
+                    eq = bool(again == nxt) and (heavy or bool(nxt == again))
                     same = obj_sig(again) == obj_sig(nxt)
                     acc.check("idempotent", eq and same, case, f"{p[0]} twice vs once: ==: {eq}, same structure: {same}")
             # legal
-            if p[0] != "text":
+            if p[0] != "text" and full:
                 case = make_case(gp, text, "legal_after_pass", prefix=prefix)
                 rt = _guard(lambda: generate_jaqal_program(nxt))
                 if rt[0] != "ok":
@@ -1553,7 +1681,7 @@ def process(acc, gp, thorough, only=None):
 
     # ---- flags
     for fc in flag_cases:
-        check_flags(acc, gp, text, mode, c, fc, ref)
+        check_flags(acc, gp, text, mode, c, fc, ref, info)
 
 
 def size_bucket(n):
@@ -1563,11 +1691,13 @@ def size_bucket(n):
     return ">=1000"
 
 
-def check_flags(acc, gp, text, mode, c, fc, ref):
+def check_flags(acc, gp, text, mode, c, fc, ref, info):
     kw = {}
     for k in ("expand_macro", "expand_let", "expand_let_map"):
-        if fc[k] or (hash((k, gp["gseed"])) % 2 == 0 and False):
+        if fc[k]:
             kw[k] = True
+        elif fc["entry"] == "file":
+            kw[k] = False          # spelled out instead of left to the default
     ov = fc["ov"]
     if fc["override"] == "none":
         kw["override_dict"] = None
@@ -1610,14 +1740,20 @@ def check_flags(acc, gp, text, mode, c, fc, ref):
             x = apply_pass(p, x, mode)
         return x
     b = _guard(by_hand)
-    acc.dist["flags:%s%s%s:%s:%s:%s" % ("M" if fc["expand_macro"] else "-", "L" if fc["expand_let"] else "-",
-                                        "A" if fc["expand_let_map"] else "-", fc["override"], fc["entry"],
-                                        "pair" if fc["return_usepulses"] else "single")] += 1
+    acc.dist["flags:%s%s%s" % ("M" if fc["expand_macro"] else "-", "L" if fc["expand_let"] else "-",
+                               "A" if fc["expand_let_map"] else "-")] += 1
+    acc.dist["flags:override_dict " + fc["override"]] += 1
+    acc.dist["flags:entry " + fc["entry"]] += 1
+    acc.dist["flags:return_usepulses %s" % fc["return_usepulses"]] += 1
     if a[0] != "ok" or b[0] != "ok":
         ea = None if a[0] == "ok" else a[1]
         eb = None if b[0] == "ok" else b[1]
         acc.dist["flags:refused:%s/%s" % (ea, eb)] += 1
         acc.check("flags_equal_passes", ea == eb, case, f"with the flags: {ea or 'a circuit'} ({'' if a[0] == 'ok' else a[2]}), by hand: {eb or 'a circuit'} ({'' if b[0] == 'ok' else b[2]})")
+        if ea == "JaqalError" or eb == "JaqalError":
+            expected = (fc["expand_let_map"] and info["regparam"]) or any(o[0] in info["idx"] for o in fc["ov"])
+            acc.check("applicable", expected, make_case(gp, text, "applicable", flags=fc),
+                      f"refused: with the flags: {'' if a[0] == 'ok' else a[2]}; by hand: {'' if b[0] == 'ok' else b[2]}")
         for e, who in ((ea, "the flagged parse"), (eb, "the passes")):
             if e not in (None, "JaqalError"):
                 acc.check("only_jaqal_errors", False, case, f"{who} raise {e}")
@@ -1648,7 +1784,19 @@ def gen_params(seed, n, thorough):
     for i in range(n):
         fam = FAMILIES[i % len(FAMILIES)]
         grp = GROUPS[(i // len(FAMILIES) + off + (i % len(FAMILIES))) % len(GROUPS)]
-        size = min(rng.choice(grp), CAP.get(fam, 1000))
+        cap = CAP.get(fam, 1000)
+        capq = cap if thorough else CAP_QUICK.get(fam, cap)
+        size = rng.choice(grp)
+        if size > capq:
+            # beyond what this family affords: sometimes the largest affordable size, mostly a smaller group again
+            # (quick tier: one in five goes on to the thorough tier's limit)
+            c = rng.random()
+            if not thorough and c < 0.2:
+                size = min(size, cap)
+            elif c < 0.5:
+                size = capq - rng.randrange(3)
+            else:
+                size = rng.choice([x for grp2 in GROUPS for x in grp2 if x <= capq])
         style = "long" if fam == "long_names" else rng.choice(STYLES)
         out.append({"family": fam, "size": size, "style": style, "mode": rng.choice(["gates", "nogates"]),
                     "gseed": rng.randrange(1 << 30)})
@@ -1657,8 +1805,19 @@ def gen_params(seed, n, thorough):
 
 def run(seed: int, n: int, driver: str = DEFAULT_DRIVER, thorough: bool = False) -> dict:
     _imports()
+    import time
     acc = Acc()
-    for gp in gen_params(seed, n * (3 if thorough else 1), thorough):
+    t0 = time.time()
+    soft, hard = (170, 220) if thorough else (14, 20)
+    k = float(os.environ.get("C10_SCALE_TIME_FACTOR", "1"))        # e.g. 100 to validate every case on a loaded machine
+    soft, hard = soft * k, hard * k
+    for gp in gen_params(seed, n, thorough):
+        # safety valve for a heavily loaded machine (the cases themselves depend on the seed only): past the soft limit
+        # the heavy programs are left out, past the hard limit everything is; both are counted
+        dt = time.time() - t0
+        if dt > hard or (dt > soft and weight(gp) > 1):
+            acc.dist["left out for time (%s limit)" % ("hard" if dt > hard else "soft")] += 1
+            continue
         process(acc, gp, thorough)
     return {"corr": {}, "oracle": acc.oracle, "distribution": dict(sorted(acc.dist.items())),
             "samples": acc.samples, "nontrivial": len(acc.nontrivial)}
@@ -1678,6 +1837,8 @@ def replay(case: dict, driver: str = DEFAULT_DRIVER) -> dict:
             if case.get("oracle") in (None, name):
                 ncases += o["cases"]
                 fails += [f for f in o["failures"] if f not in fails]
+    exact = [f for f in fails if f["case"]["what"] == case.get("what")]
+    fails = exact or fails
     out["oracle_ok"] = (not fails) if ncases else None
     out["detail"] = "; ".join(f["case"]["oracle"] + " " + json.dumps(f["case"]["what"], default=str)[:300] + ": " + f["detail"] for f in fails)[:4000]
     return out
@@ -1686,7 +1847,7 @@ def replay(case: dict, driver: str = DEFAULT_DRIVER) -> dict:
 def main():
     ap = argparse.ArgumentParser()
     ap.add_argument("--seed", type=int, default=0)
-    ap.add_argument("--n", type=int, default=150)
+    ap.add_argument("--n", type=int, default=66)
     ap.add_argument("--thorough", action="store_true")
     ap.add_argument("--json", action="store_true")
     a = ap.parse_args()
